@@ -46,6 +46,26 @@ type Ctx struct {
 	Obls  []Obl
 	funcs map[string]bool // functions looked at (evidence)
 	notes []string
+
+	floorAcc   map[string]*floorEntry
+	floorOrder []string
+}
+
+type floorEntry struct {
+	rule, what string
+	got, want  int
+}
+
+// floorBegin switches floors to accumulating mode; floorEnd emits them on the sums.
+func (c *Ctx) floorBegin() { c.floorAcc, c.floorOrder = map[string]*floorEntry{}, nil }
+
+func (c *Ctx) floorEnd() {
+	acc, order := c.floorAcc, c.floorOrder
+	c.floorAcc, c.floorOrder = nil, nil
+	for _, k := range order {
+		e := acc[k]
+		c.floor(e.rule, e.got, e.want, e.what)
+	}
 }
 
 func (c *Ctx) add(rule, construct, pos string, st Status, detail string, path ...string) {
@@ -103,6 +123,19 @@ func (c *Ctx) touch(f *ssa.Function) {
 // floor records a vacuity failure when a rule matched fewer instances than the
 // number confirmed by hand on the reference tree.
 func (c *Ctx) floor(rule string, got, want int, what string) {
+	if c.floorAcc != nil {
+		// accumulating mode: a rule body is run once per part of a split function and
+		// the floors apply to the sum (see floorBegin / floorEnd)
+		k := rule + "\x00" + what
+		e := c.floorAcc[k]
+		if e == nil {
+			e = &floorEntry{rule: rule, what: what, want: want}
+			c.floorAcc[k] = e
+			c.floorOrder = append(c.floorOrder, k)
+		}
+		e.got += got
+		return
+	}
 	if got < want {
 		c.add(rule, "floor:"+what, "", StFloor, fmt.Sprintf("%s: matched %d instance(s), expected at least %d", what, got, want))
 	}
